@@ -159,6 +159,17 @@ def _mk_Conv(n):
     return Conv
 
 
+def nested(value):
+    """A datatype of an application that itself loads a configuration while
+    it is being called (the world's nested_hook decides what; reentrancy of
+    the loading entry points)."""
+    w = WORLD
+    hook = getattr(w, "nested_hook", None) if w is not None else None
+    if hook is not None:
+        hook(value)
+    return "nested:" + value
+
+
 for _i in range(N):
     globals()["Conv_%d" % _i] = _mk_Conv(_i)
     globals()["conv_%d" % _i] = _mk_conv(_i)
